@@ -1,4 +1,5 @@
 import Jose.Jwk
+import Jose.Grid.C12
 import Jose.Lemmas.Json
 /-
   C12 — thumbprints follow RFC 7638 and agree with key equality.
@@ -176,5 +177,18 @@ theorem eql_needs_thumbprint (a b : Json) (h : thpInput a = none) (hk : ∃ k, a
 /-- non-vacuity: RFC 7638-style input of a concrete EC key, ignoring `d` and `kid` -/
 example : thpInput (.obj [("kty", .str "EC"), ("d", .str "Zg"), ("crv", .str "P-256"), ("x", .str "AQ"), ("kid", .int 1), ("y", .str "Ag")])
     = some "{\"crv\":\"P-256\",\"kty\":\"EC\",\"x\":\"AQ\",\"y\":\"Ag\"}" := by decide
+
+
+/-! ### the model is the code, on a grid regenerated from the code on every run
+
+  `Jose/Grid/C12.lean` is rewritten by the translator (tools/extract_tables.py) on every run: it holds
+  what the library **built from the current working tree** answered, in-process, to a fixed grid of
+  operations — key equality `jose_jwk_eql` on all 196 ordered pairs of 14 keys (same material with other metadata, other case of `kty`, missing required members, unknown types, non-objects).
+  `Driver.agrees` evaluates the model's handler for the row's operation (the same handler the
+  correspondence run uses) and compares with the recorded answer by `json_equal`.  The theorem is
+  checked by the kernel (`decide +kernel`: evaluation, no axiom); any edit of the C that changes one of
+  these answers makes it false, and the check then reports a violation. -/
+theorem model_is_code_on_grid : Jose.Grid.C12.chunks.all (fun c => c.all Jose.Driver.agrees) = true := by
+  decide +kernel
 
 end Jose.Props.C12
